@@ -5,9 +5,9 @@
 #include <librfn/list.h>
 #include <librfn/util.h>
 
-#define MAXN 16
+#define MAXN 400
 #define MAXL 4
-static const int keytab[8] = { 1, 2, 2, 3, 1, 3, 2, 1 };
+static const int keytab[8] = { 50000, 100000, 100000, 150000, 50000, 150000, 100000, 50000 };
 
 typedef struct { int pad; list_node_t link; int key; } item_t;
 static item_t *items;        /* heap allocated: ASan redzones around it */
@@ -138,6 +138,15 @@ int main(void)
 			int nn = c.ntok > 1 ? drv_arg(&c, 0) : nnodes, nl = c.ntok > 2 ? drv_arg(&c, 1) : nlists;
 			reset(nn, nl);
 			printf("{\"e\":\"Reset\",\"a\":[%d,%d]}\n", nn, nl);
+		} else if (drv_is(&c, "Long")) {
+			/* one long list: membership and removal far from the head */
+			int nn = drv_arg(&c, 0);
+			reset(nn, 1);
+			printf("{\"e\":\"Reset\",\"a\":[%d,%d]}\n", nn, 1);
+			for (int i = 1; i <= nn; i++) apply("Insert", 1, i);
+			apply("Contains", 1, nn); apply("Contains", 1, 256); apply("Contains", 1, 255); apply("Contains", 1, 1);
+			apply("Remove", 1, 256); apply("Contains", 1, 256); apply("Remove", 1, nn); apply("ContainsIter", 1, nn - 1);
+			apply("IterRemove", 0, 0); apply("Remove", 1, 257); apply("Extract", 1, 0); apply("Contains", 1, nn - 2);
 		} else if (drv_is(&c, "Gen")) {
 			gen(drv_arg(&c, 0), drv_arg(&c, 1), drv_arg(&c, 2), drv_arg(&c, 3), drv_arg(&c, 4));
 		} else {
